@@ -12,7 +12,7 @@ What these theorems say about the Python code (`compute_all_importances(_cy)`, m
   nearest of all units decides) minus the utility of the empty training set.
 * `C06_neighbor`: the `n` entries of the final result add up to the mean, over the `m` validation
   points, of that difference.
-Both are the efficiency axiom `Sh.phi_efficiency` applied to the game of C01.
+Both are the efficiency property `Sh.phi_efficiency` of the Shapley value applied to the game of C01.
 -/
 
 open Finset Ds.Kernel
